@@ -55,3 +55,13 @@ mut("c09-tc-ignores-extra", "C09", "msg_truncate.go", "	dns.Truncated = dns.Trun
 mut("c09-return-l-on-overflow", "C09", "msg_truncate.go", "			return size, i\n", "			return l - r.len(l, nil), i\n", "after a cut later sections may still receive records")
 mut("c09-floor-511", "C09", "msg_truncate.go", "	if size < MinMsgSize {\n		size = MinMsgSize\n	}", "	if size < MinMsgSize {\n		size = MinMsgSize - 1\n	}", "size floor is 511")
 mut("c09-tc-always-on-compress", "C09", "msg_truncate.go", "	dns.Compress = true\n\n	edns0 := dns.popEdns0()", "	dns.Compress = true\n	dns.Truncated = true\n\n	edns0 := dns.popEdns0()", "TC set whenever compression is needed even if nothing is dropped")
+
+# ---- C03
+mut("c03-unpack-budget", "C03", "msg.go", "			if budget <= 0 {\n				return \"\", lenmsg, ErrLongDomain", "			if budget < 0 {\n				return \"\", lenmsg, ErrLongDomain", "unpacker accepts a 256-octet name")
+mut("c03-unpack-budget-strict", "C03", "msg.go", "			if budget <= 0 {\n				return \"\", lenmsg, ErrLongDomain", "			if budget <= 1 {\n				return \"\", lenmsg, ErrLongDomain", "unpacker rejects a valid 255-octet name")
+mut("c03-pack-label-64", "C03", "msg.go", "			labelLen := i - begin\n			if labelLen >= 1<<6 { // top two bits of length must be clear\n				return len(msg), ErrRdata", "			labelLen := i - begin\n			if labelLen > 1<<6 { // top two bits of length must be clear\n				return len(msg), ErrRdata", "packer accepts a 64-octet label (emits 0x40 length octet)")
+mut("c03-isdomainname-label-64", "C03", "defaults.go", "			if labelLen >= 1<<6 { // top two bits of length must be clear\n				return labels, false", "			if labelLen > 1<<6 { // top two bits of length must be clear\n				return labels, false", "IsDomainName accepts a 64-octet label")
+mut("c03-special-set", "C03", "types.go", "	case '.', ' ', '\\'', '@', ';', '(', ')', '\"', '\\\\':\n		return true", "	case ' ', '\\'', '@', ';', '(', ')', '\"', '\\\\':\n		return true", "a dot inside a label is no longer escaped on output")
+mut("c03-escapebyte-large", "C03", "types.go", "	b -= '~' + 1\n", "	b -= '~'\n", "\\DDD table index off by one for octets above 0x7e")
+mut("c03-isfqdn-parity", "C03", "defaults.go", "	return (len(s)-i)%2 != 0\n}", "	return (len(s)-i)%2 == 0\n}", "IsFqdn parity of trailing backslashes inverted")
+mut("c03-isdomainname-budget", "C03", "defaults.go", "	const lenmsg = maxDomainNameWireOctets - 1 // the root label takes the last octet", "	const lenmsg = maxDomainNameWireOctets", "IsDomainName accepts 256 octets again")
